@@ -100,6 +100,20 @@ def arm_values(F, f, target):
     return out
 
 
+def owned_delegates(rep, F, rule):
+    """the owned scalar resolver is the borrowed one followed by into_owned (so owned and borrowed node types resolve alike)"""
+    for nm in ("parse_from_cow", "parse_from_cow_and_metadata"):
+        f = F.fn("saphyr::scalar::ScalarOwned::" + nm)
+        cs = [ck for _, _, ck, _ in f.calls()]
+        for _, t, _, _ in f.calls():
+            for a in t["args"]:
+                c = op_const(a)
+                if c is not None and "fn" in c:
+                    cs.append(c["fn"]["key"])
+        rep.check(SC + "::" + nm in cs and any(c and c.endswith("::into_owned") for c in cs) and not any(c and c.startswith("str::parse") for c in cs),
+                  rule, nm, "ScalarOwned::%s no longer delegates to Scalar::%s and into_owned" % (nm, nm), site=f.span, detail=cs)
+
+
 def run(tier):
     rep = new_report(tier)
     F = facts.load()
@@ -166,16 +180,7 @@ def run(tier):
     rep.check(set(allv) <= {"String", "Null"}, "tag-arm", "direct-constructions", "parse_from_cow_and_metadata constructs a typed scalar outside the typed arms",
               detail=allv)
     # ScalarOwned delegates
-    for nm in ("parse_from_cow", "parse_from_cow_and_metadata"):
-        f = F.fn("saphyr::scalar::ScalarOwned::" + nm)
-        cs = [ck for _, _, ck, _ in f.calls()]
-        for _, t, _, _ in f.calls():
-            for a in t["args"]:
-                c = op_const(a)
-                if c is not None and "fn" in c:
-                    cs.append(c["fn"]["key"])
-        rep.check(SC + "::" + nm in cs and any(c and c.endswith("::into_owned") for c in cs) and not any(c and c.startswith("str::parse") for c in cs),
-                  "owned-delegates", nm, "ScalarOwned::%s no longer delegates to Scalar::%s and into_owned" % (nm, nm), site=f.span, detail=cs)
+    owned_delegates(rep, F, "owned-delegates")
 
     # (d) literal tables
     with open(os.path.join(facts.VERIF, "tables", "core_schema_literals.json")) as fh:
